@@ -307,7 +307,7 @@ def fromChars (cs : List Char) : Except Err (List Rat) :=
   | none =>
     -- legacy reader: just numbers, no brackets, no fraction
     match (spaceTokens cs).mapM parseInt? with
-    | none => .error .format
+    | none => if cs.all floatChar then .error .format else .error .value   -- numpy: 'unmatched data' is a ValueError
     | some idx => if idx.length = 3 ∨ idx.length = 4 then .ok (idx.map fun (i : Int) => (i : Rat)) else .error .assert
   | some (openIdx, closeCh) =>
     match findIdx closeCh cs with
@@ -318,7 +318,7 @@ def fromChars (cs : List Char) : Except Err (List Rat) :=
       | .ok frac =>
         let inner := (cs.take closeIdx).drop (openIdx + 1)      -- value[openindex+1 : closeindex]
         match (spaceTokens inner).mapM parseInt? with
-        | none => .error .format
+        | none => if inner.all floatChar then .error .format else .error .value
         | some idx =>
           if idx.length = 3 ∨ idx.length = 4 then .ok (idx.map fun (i : Int) => frac * (i : Rat))
           else .error .assert
@@ -523,5 +523,79 @@ def CacheValid [Add K] [Sub K] [Mul K] [Div K] (o : BoxObj K) : Prop :=
   o.recipCache = none ∨ o.recipCache = some o.box.recip
 
 end BoxObj
+
+/-! ### the CALLER's memory: arrays the caller holds, calls of the functions of this property on them, and
+    in-place writes by the caller.
+
+    Every function of this property is a function of the CONTENTS of its arguments: it does not write into an
+    argument, and what it returns is a new array that shares nothing with an argument or with an earlier
+    result.  In a functional model this is true by construction (there is nothing a Lean function could write
+    into); it is made an explicit part of the model here so that (1) it can be stated as theorems about
+    histories `call → caller overwrites something → call`, and (2) the correspondence can run the same history
+    on the model and on real numpy arrays (integer and float dtype, contiguous arrays and views of larger
+    tables) and compare the WHOLE memory after every step: an implementation that reduces its argument in
+    place, or hands out one cached array twice, differs from this model. -/
+
+/-- arrays by address (= position); `α` is the type of an array's contents. -/
+structure Mem (α : Type) where
+  cells : List α
+
+namespace Mem
+variable {α : Type}
+
+def empty : Mem α := ⟨[]⟩
+
+def size (m : Mem α) : Nat := m.cells.length
+
+def get? (m : Mem α) (a : Nat) : Option α := m.cells[a]?
+
+/-- the caller creates an array; it gets the next free address. -/
+def alloc (m : Mem α) (v : α) : Mem α × Nat := (⟨m.cells ++ [v]⟩, m.size)
+
+/-- the caller overwrites, in place, an array it holds (an argument of an earlier call or a result it was
+    handed): `b *= a`, `n /= norm(n)`, `t[2] = 0`. An address not in use is ignored. -/
+def scribble (m : Mem α) (a : Nat) (v : α) : Mem α := ⟨m.cells.set a v⟩
+
+/-- a call `f(array at src)`.  The result is a NEW array at the next free address; no existing array, the
+    argument included, is touched; a call that raises leaves the memory as it was.
+    `none` = `src` is not an address in use (harness error). -/
+def call (m : Mem α) (f : α → Except Err α) (src : Nat) : Mem α × Option (Except Err (Nat × α)) :=
+  match m.get? src with
+  | none => (m, none)
+  | some x =>
+    match f x with
+    | .ok r => (⟨m.cells ++ [r]⟩, some (.ok (m.size, r)))
+    | .error e => (m, some (.error e))
+
+/-- a call without array argument (`fromstring(text)`, `all_indices(m, reduce)`): `r` is what it returns. -/
+def callConst (m : Mem α) (r : Except Err α) : Mem α × Except Err (Nat × α) :=
+  match r with
+  | .ok r => (⟨m.cells ++ [r]⟩, .ok (m.size, r))
+  | .error e => (m, .error e)
+
+/-- what can happen to the caller's memory. -/
+inductive Op (α : Type) where
+  | alloc (v : α)
+  | scribble (a : Nat) (v : α)
+  | call (f : α → Except Err α) (src : Nat)
+  | callConst (r : Except Err α)
+
+def step (m : Mem α) : Op α → Mem α
+  | .alloc v => (m.alloc v).1
+  | .scribble a v => m.scribble a v
+  | .call f src => (m.call f src).1
+  | .callConst r => (m.callConst r).1
+
+def run (m : Mem α) (ops : List (Op α)) : Mem α := ops.foldl step m
+
+/-- the only operation that changes the contents of the array at `a`. -/
+def Op.writes (a : Nat) : Op α → Bool
+  | .scribble b _ => b == a
+  | _ => false
+
+end Mem
+
+/-- contents of one caller-side array in the driver: rows of equal width (an index set per row). -/
+abbrev Rows := List (List Rat)
 
 end Atomman.C16
